@@ -274,7 +274,22 @@ def run_chunk(hs):
         cnt("kind:" + h["kind"])
         cnt("len:" + str(min(len(h["ops"]), 40) // 5 * 5) + "+")
         first_bad = None
+        recorded, dm_on, users_untied = set(), False, False
         for i, (op, a, im) in enumerate(zip(h["ops"], ans, impl)):
+            # DomainManager.delete_link under a domain matching function drops the cached managers of the matching domains
+            # also when the link was not recorded; Model/RoleManager.lean (DM.deleteLink) keeps them in that case. has_link /
+            # get_roles cannot tell (cached = rebuilt, Props/C14Dom), only the "names seen so far" part of get_users can:
+            # from such a call on the get_users answers are not tied to the model (they are still judged against the spec)
+            if op[0] == "add":
+                recorded.add(tuple(op[1:]))
+            elif op[0] == "del":
+                if dm_on and tuple(op[1:]) not in recorded:
+                    users_untied = True
+                recorded.discard(tuple(op[1:]))
+            elif op[0] == "dmatchfn":
+                dm_on, users_untied = True, False  # registration drops every cache on both sides
+            elif op[0] == "clear":
+                recorded, users_untied = set(), False
             if a == "bad-op":
                 raise common.Infra(f"driver rm answered bad-op on {op!r}")
             model, spec = parse_ms(a)
@@ -289,7 +304,9 @@ def run_chunk(hs):
                 cnt("answer:" + im[:1])
                 if im == "T" and op[1] != op[2] if op[0] == "has" else im == "T":
                     out["nontrivial"].add(hash((h["kind"], h["L"], repr(h["ops"][: i + 1]))))
-            if im != model and len(out["dis"]) < 20:
+            if users_untied and op[0] == "users" and im != model:
+                cnt("users-after-unrecorded-delete-under-domain-function:not-tied")
+            elif im != model and len(out["dis"]) < 20:
                 out["dis"].append({"what": f"{h['kind']} manager, op {op!r}: implementation {im} vs Lean model {model}", "history": h, "step": i, "impl": im, "model": model})
             elif im != model:
                 out["dis"].append(None)
